@@ -209,15 +209,23 @@ func ruleFitComparators(c *Ctx) {
 	}
 	retCmp := false
 	for _, b := range crf.Blocks {
-		if r, isR := b.Instrs[len(b.Instrs)-1].(*ssa.Return); isR && valueIsCallTo(retVal(r, 0), F(cmp)) {
-			retCmp = true
+		if r, isR := b.Instrs[len(b.Instrs)-1].(*ssa.Return); isR {
+			// (directly, or through a result variable: one of the values the return can have)
+			for _, alt := range valueAlternatives(retVal(r, 0), 3) {
+				if valueIsCallTo(alt, F(cmp)) {
+					retCmp = true
+				}
+			}
+			if phi, isPhi := r.Results[0].(*ssa.Phi); isPhi {
+				trackPhis[crf] = append(trackPhis[crf], phi)
+			}
 		}
 	}
 	found, _ := guardControlsReturn(crf, relMatcher("!=", resultOfCall(F(cmp)), isConstInt(0)), func(*ssa.Return) bool { return true })
 	c.Check(okLoop && retCmp && found, rule, "CompareRegionFit rule loop", "rule fits are compared in order and the first difference is returned", P.pos(crf.Pos()), "")
 	c.need(rule, crf, "return of a rule comparison", func(x ssa.Instruction) bool {
 		r, ok := x.(*ssa.Return)
-		return ok && valueIsCallTo(retVal(r, 0), F(cmp))
+		return ok && valueIsCallTo(resolved(retVal(r, 0)), F(cmp))
 	}, []Ev{guardRel("the comparison of this pair != 0", "!=", resultOfCall(F(cmp)), isConstInt(0))}, all, "a pair's comparison is returned only when it is a difference: equal pairs pass on to the next rule")
 	// the tail, evaluated with no rule fits to compare: fewer orphans wins
 	fFits := P.Field(plc, "RegionFit", "RuleFits")
@@ -262,8 +270,8 @@ func ruleFitSearchDiscipline(c *Ctx) {
 	P := c.P
 	rule := c.Prop + "/search-state"
 	sel := P.Field(plc, "fitPeer", "selected")
-	enum := P.Method(plc, "fitWorker", "enumPeers")
-	c.onlyWrittenBy(rule, sel, map[string]string{fnName(enum): "the enumeration marks and unmarks candidates"})
+	enum := enumPeersFn(P)
+	c.onlyWrittenBy(rule, sel, map[string]string{fnName(outer(enum)): "the enumeration marks and unmarks candidates"})
 	// every iteration marks, recurses, unmarks
 	okIter := false
 	for _, l := range loopsOf(enum) {
@@ -409,7 +417,7 @@ func ruleFitSearchDiscipline(c *Ctx) {
 		"a peer is a candidate for a rule only if its store satisfies the label constraints, its role can still be converted, and no earlier rule selected it")
 	// never more peers than the rule's count
 	cnt := P.Field(plc, "Rule", "Count")
-	c.Check(hasComparison(fr, "<", lenOf(anyVal), anyVal) && len(callsIn(fr, false, F(P.Method(plc, "fitWorker", "enumPeers")))) > 0, rule, "count in "+fnName(fr), "min(rule.Count, candidates) peers are enumerated", P.pos(fr.Pos()), "")
+	c.Check(hasComparison(fr, "<", lenOf(anyVal), anyVal) && len(callsIn(fr, false, F(enumPeersFn(P)))) > 0, rule, "count in "+fnName(fr), "min(rule.Count, candidates) peers are enumerated", P.pos(fr.Pos()), "")
 	_ = cnt
 	// newRuleFit: every selected peer is listed; role mismatches exactly those failing the strict match
 	nrf := P.Func(plc, "newRuleFit")
@@ -463,7 +471,7 @@ func ruleSatisfiedAtoms(c *Ctx) {
 	gf := P.Method(plc, "RegionFit", "IsSatisfied")
 	fits := P.Field(plc, "RegionFit", "RuleFits")
 	orph := P.Field(plc, "RegionFit", "OrphanPeers")
-	c.atomRejects(rule, gf, "no rule fits ⇒ false", relMatcher("==", lenOf(loadOfField(fits)), isConstInt(0)), boolReturn(false))
+	c.atomRejects(rule, gf, "no rule fits ⇒ false", relMatcher("== <=", lenOf(loadOfField(fits)), isConstInt(0)), boolReturn(false)) // (a length: <= 0 is == 0)
 	okLoop := false
 	for _, l := range loopsOf(gf) {
 		okLoop = everyIterationPasses(l, func(from *ssa.BasicBlock, si int) bool {
@@ -624,8 +632,35 @@ func ruleClosedEnums(c *Ctx) {
 			okMS = true
 		}
 	}
+	// every constraint is consulted and one that does not match decides: slice.AllOf over MatchStore, or a loop in
+	// which every iteration calls MatchStore and a false answer leads straight to `return false`
 	allOf := F(P.Func("pkg/slice", "AllOf"))
-	c.Check(okMS && len(callsIn(mlc, false, allOf)) > 0, rule, "constraints in "+fnName(mlc), "every constraint must match (AllOf … MatchStore)", P.pos(mlc.Pos()), "")
+	every := len(callsIn(mlc, false, allOf)) > 0
+	if !every {
+		for _, l := range loopsOf(mlc) {
+			has := false
+			for b := range l.blocks {
+				for _, ins := range b.Instrs {
+					if isCallTo(ins, ms) {
+						has = true
+					}
+				}
+			}
+			if has && everyIterationCalls(l, func(x ssa.Instruction) bool { return isCallTo(x, ms) }) {
+				for b := range l.blocks {
+					if iff, ok := b.Instrs[len(b.Instrs)-1].(*ssa.If); ok {
+						for si := 0; si < 2; si++ {
+							cond, pos := normCond(iff.Cond, si == 0)
+							if cl, isC := cond.(*ssa.Call); isC && !pos && ms.Match(cl.Common()) && edgeLeadsStraightTo(b, si, boolReturn(false)) {
+								every = true
+							}
+						}
+					}
+				}
+			}
+		}
+	}
+	c.Check(okMS && every, rule, "constraints in "+fnName(mlc), "every constraint must match (AllOf … MatchStore)", P.pos(mlc.Pos()), "")
 }
 
 // ruleLabelMatchAtoms: a store without the label never matches `in` and always
@@ -639,10 +674,12 @@ func ruleLabelMatchAtoms(c *Ctx) {
 	ms := P.Method("server/schedule/placement", "LabelConstraint", "MatchStore")
 	getLV := F(P.Method("server/core", "StoreInfo", "GetLabelValue"))
 	set := guardRel("the store carries the label (value != \"\")", "!=", derived(resultOfCall(getLV), 3), isConstStr("")) // the value sits in a cell: a closure captures it
-	for _, name := range []string{"AnyOf", "NoneOf"} {
-		f := F(P.Func("pkg/slice", name))
-		c.need(rule, ms, "value-list test "+name, instrCallMatcher(f), []Ev{set}, all, "the value list is consulted only for a store that carries the label")
-	}
+	// (the list is handed to slice.AnyOf / NoneOf, or searched by a loop: either way it is read in MatchStore)
+	valuesF := P.Field("server/schedule/placement", "LabelConstraint", "Values")
+	c.need(rule, ms, "value-list test", func(x ssa.Instruction) bool {
+		u, ok := x.(*ssa.UnOp)
+		return ok && u.Op == token.MUL && fieldOfAddr(u.X) == valuesF
+	}, []Ev{set}, all, "the value list is consulted only for a store that carries the label")
 	cl := P.Method("server/core", "StoreInfo", "CompareLocation")
 	c.saw(fnName(cl))
 	okRet := true
@@ -767,7 +804,7 @@ func ruleSearchExhaustive(c *Ctx) {
 	P := c.P
 	rule := c.Prop + "/search-state"
 	const pl = "server/schedule/placement"
-	en := P.Method(pl, "fitWorker", "enumPeers")
+	en := enumPeersFn(P)
 	c.saw(fnName(en))
 	okExit, nLoop := true, 0
 	for _, l := range loopsOf(en) {
@@ -822,7 +859,7 @@ func ruleSearchExhaustive(c *Ctx) {
 		if !ok || len(r.Results) != 1 {
 			return false
 		}
-		b, isC := constBool(retVal(r, 0))
+		b, isC := constBool(resolved(retVal(r, 0)))
 		return !(isC && b)
 	}, []Ev{guardCall("fitRule(index+1) reported an improvement", true, callMatcher(fitRule))}, func(h []bool) bool { return !h[0] },
 		"when a tie on this rule let the following rules find a better fit, the improvement is reported to the rule above")
@@ -842,7 +879,7 @@ func ruleSearchExhaustive(c *Ctx) {
 		if !ok || len(r.Results) != 1 {
 			return false
 		}
-		b, isC := constBool(retVal(r, 0))
+		b, isC := constBool(resolved(retVal(r, 0)))
 		return !(isC && b)
 	}, []Ev{strictly}, func(h []bool) bool { return !h[0] }, "a strictly better fit for this rule is reported to the rule above")
 	fitsF := P.Field(pl, "RegionFit", "RuleFits")
@@ -1041,4 +1078,25 @@ func evalFlag(v ssa.Value, isCall, isOld valPred, call, old bool, depth int) (bo
 		}
 	}
 	return false, false
+}
+
+// enumPeersFn: the recursive enumeration of peer combinations — the method of
+// the reference tree, or, when it was turned into a recursive function literal,
+// the literal inside fitRule that calls compareBest.
+func enumPeersFn(P *Prog) *ssa.Function {
+	if m := P.methodOpt(plc, "fitWorker", "enumPeers"); m != nil {
+		return m
+	}
+	if m := P.renamedFunc(plc, "fitWorker", "enumPeers"); m != nil {
+		return m
+	}
+	cb := F(P.Method(plc, "fitWorker", "compareBest"))
+	fr := P.Method(plc, "fitWorker", "fitRule")
+	for _, a := range fr.AnonFuncs {
+		if len(callsIn(a, false, cb)) > 0 {
+			return a
+		}
+	}
+	undecidedf("the enumeration of peer combinations (fitWorker.enumPeers, or a function literal of fitRule calling compareBest) not found")
+	return nil
 }
